@@ -154,8 +154,8 @@ func cmdHTTPTab(args []string) {
 		}
 		rows++
 		suffix := strings.HasPrefix(r.Param, "suffix")
-		for _, variant := range []string{"struct", "ptr"} {
-			if variant == "ptr" && r.Src == "json" && r.Body == "empty-object" {
+		for _, variant := range []string{"struct", "ptr", "ptr-notnil"} {
+			if variant != "struct" && r.Src == "json" && r.Body == "empty-object" {
 				continue // Ptr(Struct) treats an empty document as an absent pointer (pinned by TestTopLevelOptionalStruct)
 			}
 			ran := false
@@ -174,18 +174,24 @@ func cmdHTTPTab(args []string) {
 				req := buildRequest(r)
 				if !suffix {
 					d := &destA{Name: sent, Tags: []string{sent}, Tagstr: sent}
-					if variant == "struct" {
+					switch variant {
+					case "struct":
 						m = sch.Parse(zhttp.Request(req), d)
-					} else {
+					case "ptr":
 						m = z.Ptr(sch).Parse(zhttp.Request(req), &d)
+					default:
+						m = z.Ptr(sch).NotNil().Parse(zhttp.Request(req), &d)
 					}
 					name, tags, tagstr = d.Name, d.Tags, d.Tagstr
 				} else {
 					d := &destB{Name: sent, Tags: []string{sent}, Tagstr: sent}
-					if variant == "struct" {
+					switch variant {
+					case "struct":
 						m = sch.Parse(zhttp.Request(req), d)
-					} else {
+					case "ptr":
 						m = z.Ptr(sch).Parse(zhttp.Request(req), &d)
+					default:
+						m = z.Ptr(sch).NotNil().Parse(zhttp.Request(req), &d)
 					}
 					name, tags, tagstr = d.Name, d.Tags, d.Tagstr
 				}
